@@ -36,3 +36,6 @@ CLAIMS = {
                      "members of every vector i with a valid signature in sigs[i]. Correspondence run + monitor tie the model to the contract and exhibit failing inputs.",
                 note=NOTE, technique=TECH),
 }
+
+for _p in PROPS.values():
+    _p.setdefault("cover_files", ['contracts/container/'])
